@@ -196,6 +196,20 @@ class Builder:
             env["suit-integrated-payloads"] = payloads
         if integrated_deps:
             env["suit-integrated-dependencies"] = integrated_deps
+        # the order of envelope members in the description is free (and is the order on the wire): 0 as built, 1 dependencies
+        # before payloads, 2 integrated members before severed ones, 3 everything after the manifest reversed
+        eo = sh.get("eorder", 0)
+        if eo:
+            head = {k_: env[k_] for k_ in ("suit-authentication-wrapper", "suit-manifest")}
+            rest = [k_ for k_ in env if k_ not in head]
+            integ = [k_ for k_ in ("suit-integrated-dependencies", "suit-integrated-payloads") if k_ in env]
+            if eo == 1:
+                rest = [k_ for k_ in rest if k_ not in integ] + integ
+            elif eo == 2:
+                rest = list(reversed(integ)) + [k_ for k_ in rest if k_ not in integ]
+            else:
+                rest = list(reversed(rest))
+            env = dict(head, **{k_: env[k_] for k_ in rest})
         desc = {"SUIT_Envelope_Tagged": env}
         needs_right = sh.get("wsup") == "right" or any(v[2] == "right" for v in sh.get("mem", {}).values())
         if (sh.get("pad") is not None or needs_right) and creator is not None:
@@ -263,6 +277,7 @@ def random_shape(rng, depth=0, maxdepth=2, with_cid=False, small=False):
           "pay": [[f"#p{i}", rng.choice([0, 1, 23, 24, 255, 256, 1000]), rng.choice(["hex", "file"]), rng.randrange(1000)]
                   for i in range(rng.choice([0, 0, 1, 2]))],
           "deps": [], "imgs": []}
+    sh["eorder"] = (sh["seq"] % 7 + len(sh["pay"]) + len(mem)) % 4   # derived, so that the random stream is not shifted
     if with_cid or rng.random() < 0.5:
         sh["cid"] = [rng.choice(["first", "mid", "last"]), "nordicsemi.com", "nRF54H20_sample_app"]
     if depth < maxdepth and rng.random() < (0.6 if depth == 0 else 0.4):
